@@ -1,8 +1,67 @@
+import Driver.C01
+import Driver.C02
+import Driver.C03
+import Driver.C04
+import Driver.C05
+import Driver.C06
+import Driver.C07
+import Driver.C08
+import Driver.C09
+import Driver.C10
+import Driver.C11
+import Driver.C12
+import Driver.C13
+import Driver.C14
 import Driver.C15
+import Driver.C16
+import Driver.C17
+import Driver.C18
+import Driver.C19
+import Driver.C20
+import Driver.C21
+import Driver.C22
+import Driver.C23
+import Driver.C24
+import Driver.C25
+import Driver.C26
+import Driver.C27
+import Driver.C28
+import Driver.C29
+import Driver.C30
 
+/-- `drv <domain> [fact=value …] < ops` — one reply line per op line. -/
 def main (args : List String) : IO UInt32 := do
   match args with
+  | "C01" :: rest => Driver.C01.run rest
+  | "C02" :: rest => Driver.C02.run rest
+  | "C03" :: rest => Driver.C03.run rest
+  | "C04" :: rest => Driver.C04.run rest
+  | "C05" :: rest => Driver.C05.run rest
+  | "C06" :: rest => Driver.C06.run rest
+  | "C07" :: rest => Driver.C07.run rest
+  | "C08" :: rest => Driver.C08.run rest
+  | "C09" :: rest => Driver.C09.run rest
+  | "C10" :: rest => Driver.C10.run rest
+  | "C11" :: rest => Driver.C11.run rest
+  | "C12" :: rest => Driver.C12.run rest
+  | "C13" :: rest => Driver.C13.run rest
+  | "C14" :: rest => Driver.C14.run rest
   | "C15" :: rest => Driver.C15.run rest
+  | "C16" :: rest => Driver.C16.run rest
+  | "C17" :: rest => Driver.C17.run rest
+  | "C18" :: rest => Driver.C18.run rest
+  | "C19" :: rest => Driver.C19.run rest
+  | "C20" :: rest => Driver.C20.run rest
+  | "C21" :: rest => Driver.C21.run rest
+  | "C22" :: rest => Driver.C22.run rest
+  | "C23" :: rest => Driver.C23.run rest
+  | "C24" :: rest => Driver.C24.run rest
+  | "C25" :: rest => Driver.C25.run rest
+  | "C26" :: rest => Driver.C26.run rest
+  | "C27" :: rest => Driver.C27.run rest
+  | "C28" :: rest => Driver.C28.run rest
+  | "C29" :: rest => Driver.C29.run rest
+  | "C30" :: rest => Driver.C30.run rest
   | _ =>
     IO.eprintln s!"drv: unknown domain {args}"
     return 2
